@@ -4,7 +4,7 @@
     EscapeTop.v (get_matches_with / do_parse / parse_top). *)
 From ClapModel Require Import Base.Bytes Base.Machine Base.Utf8 Lex.OsStrExtModel.
 From ClapModel Require Import Parse.Cmd Parse.Build Parse.Valid Parse.Matcher Parse.Errors Parse.Validator Parse.Parser.
-From ClapModel Require Import ParseProofs.Totality ParseProofs.Dispatch ParseProofs.Escape ParseProofs.EscapeWalk ParseProofs.EscapeStore ParseProofs.EscapeLevel ParseProofs.EscapeChain ParseProofs.EscapeDisplay ParseProofs.EscapeTop.
+From ClapModel Require Import ParseProofs.Totality ParseProofs.Dispatch ParseProofs.Escape ParseProofs.EscapeWalk ParseProofs.EscapeStore ParseProofs.EscapeLevel ParseProofs.EscapeChain ParseProofs.EscapeDisplay ParseProofs.EscapeGlobals ParseProofs.EscapeTop.
 From Coq Require Import ZArith.
 From RecordUpdate Require Import RecordSet.
 Import RecordSetNotations.
@@ -403,7 +403,8 @@ Theorem C05_delivered_def : forall f c t m,
     /\ (chainc c = true ->
         ms_sub m = None /\ exists x pc, chain_filled c (fun y => fm_get y (ms_args m)) pc (x ++ t)))
    \/ (exists name sc sm, build_subcommand c name = Some sc /\ ms_sub m = Some (c_name sc, sm) /\ delivered f sc t sm)
-   \/ (exists name vals, ms_sub m = Some (name, Matches [(ext_id, ext_marg (vals ++ dashdash :: t))] None))).
+   \/ (exists name vals sm, ms_sub m = Some (name, sm) /\ ms_sub sm = None /\
+                            fm_get ext_id (ms_args sm) = Some (ext_marg (vals ++ dashdash :: t)))).
 Proof. exact (fun f c t m => conj (fun H => H) (fun H => H)). Qed.
 Print Assumptions C05_delivered_def.
 
@@ -501,3 +502,38 @@ Theorem C05_low_index_tail_shape_refuted : exists c0 tail alt,
   (exists e, do_parse c0 (dashdash :: tail) = OErr e /\ e_kind e = EUnknownArgument).
 Proof. exact low_index_tail_shape_refuted. Qed.
 Print Assumptions C05_low_index_tail_shape_refuted.
+
+(** * Global arguments *)
+
+(** [fill_in_global_values] (applied by [do_parse] to a successful result) writes only entries whose id
+    is in the list it is given: the two matches trees agree, level by level, on every other entry *)
+Theorem C05_fill_globals_frame : forall gl gs, (forall g, In g gs -> mem_id g gl = true) ->
+  forall f m vm, keys_in gl vm ->
+  keys_in gl (snd (fill_in_global_values f gs m vm)) /\ sng gl m (fst (fill_in_global_values f gs m vm)).
+Proof. exact fill_spec. Qed.
+Print Assumptions C05_fill_globals_frame.
+
+(** (3) for [parse_top] with global arguments: class [esc_class_g] = [esc_class0] and no positional of
+    any level (nor the external-subcommand slot) carries the id of a global argument of the tree *)
+Theorem C05_parse_top_delivered_g : forall c0 bin pre t m,
+  esc_class_g c0 = true -> is_set s_no_binary_name c0 = false -> c_bin_name c0 <> None -> t <> [] ->
+  parse_top c0 (bin :: pre ++ dashdash :: t) = OOk m ->
+  delivered (top_fuel c0) (build_self c0) t m.
+Proof. exact parse_top_delivered_g. Qed.
+Print Assumptions C05_parse_top_delivered_g.
+
+Theorem C05_do_parse_delivered_g : forall c0 pre t m,
+  esc_class_g c0 = true -> t <> [] ->
+  do_parse c0 (pre ++ dashdash :: t) = OOk m ->
+  delivered (top_fuel c0) (build_self c0) t m.
+Proof. exact do_parse_delivered_g. Qed.
+Print Assumptions C05_do_parse_delivered_g.
+
+Theorem C05_esc_class_g_def : forall c0 gl f c,
+  esc_class_g c0 = esc_class0 c0 && pos_freeb (all_globals (build_recursive (top_fuel c0) c0)) (top_fuel c0) (build_self c0) /\
+  pos_freeb gl (S f) c =
+    forallb (fun a => if is_some (a_index a) then negb (mem_id (a_id a) gl) else true) (c_args c)
+    && negb (mem_id ext_id gl)
+    && forallb (fun s => match build_subcommand c (c_name s) with Some sc => pos_freeb gl f sc | None => true end) (c_subs c).
+Proof. exact (fun c0 gl f c => conj eq_refl eq_refl). Qed.
+Print Assumptions C05_esc_class_g_def.
